@@ -513,7 +513,7 @@ func profileC03() qProfile {
 	w["reopen"] = 3
 	return qProfile{name: "C03", backends: []string{"memory", "sqlite"}, depths: []int{0, 0, 2, 5},
 		drops: []string{"reject", "drop_oldest"}, retention: false, maxOps: 40, weights: w,
-		padSingle: true, explicitTS: 5, blankIDs: true, deliveredOK: true, motifs: append(append(append([][]QOp(nil), motifsExpiry...), motifsReuseID...), motifsMixedBatch...)}
+		padSingle: true, explicitTS: 5, blankIDs: true, deliveredOK: true, motifs: append(append(append([][]QOp(nil), motifsExpiry...), motifsReuseID...), motifsMixedBatch...), extreme: true}
 }
 
 func profileC04() qProfile {
@@ -525,7 +525,7 @@ func profileC04() qProfile {
 	w["cancel"] = 3
 	return qProfile{name: "C04", backends: []string{"memory", "sqlite"}, depths: []int{0, 0, 0, 5},
 		drops: []string{"reject"}, retention: false, maxOps: 40, weights: w,
-		padSingle: true, explicitTS: 5, blankIDs: true, deliveredOK: true, motifs: append(append([][]QOp(nil), motifsStale...), motifsMixedBatch...)}
+		padSingle: true, explicitTS: 5, blankIDs: true, deliveredOK: true, motifs: append(append([][]QOp(nil), motifsStale...), motifsMixedBatch...), extreme: true}
 }
 
 func profileC05() qProfile {
